@@ -124,26 +124,29 @@ def mapErr : EvErr → AsmErr
   | .recursionLimit n => .macroRecursionLimit n
   | .unknownLabel _ => .undeclaredLabels []
 
-/-- a fixed-size or variable-sized instruction reaching `push` (the `RawOp::Op(ref op)` arm) -/
-def pushInstr (s : St) (o : AOp) (item : Item) (size : Option Nat) (c : Conc) : Except AsmErr St :=
-  let deferred : St := { s with len := s.len + size.getD 2, ready := s.ready ++ [item] }
-  match c with
-  | .ok bytes => .ok { s with len := s.len + bytes.length, ready := s.ready ++ [item] }
-  | .tooLarge => if dependsOnLabels s o then .ok deferred else .error .expressionTooLarge
-  | .negative => if dependsOnLabels s o then .ok deferred else .error .expressionNegative
-  | .ctx .divisionByZero => if dependsOnLabels s o then .ok deferred else .error .divisionByZero
-  | .ctx (.unknownLabel _) =>
-    match o.expr? with
-    | none => .error (.panic "expr unwrap")
-    | some e =>
-      match labelsOf s.macros evalFuel 0 e with
+/-- a fixed-size or variable-sized instruction reaching `push` (the `RawOp::Op(ref op)` arm):
+first every label the operand mentions is recorded as undeclared unless it is
+already defined, then the operand is evaluated under the provisional layout -/
+def pushInstr (s : St) (o : AOp) (item : Item) (size : Option Nat) (conc : St → Conc) : Except AsmErr St :=
+  let mentioned : Except AsmErr (List String) := match o.expr? with
+    | none => .ok []
+    | some e => match labelsOf s.macros evalFuel 0 e with
+      | .ok ls => .ok ls
       | .error (.unknownMacro n) => .error (.undeclaredExpressionMacro n)
       | .error (.recursionLimit n) => .error (.macroRecursionLimit n)
       | .error _ => .error (.panic "labels unreachable")
-      | .ok ls =>
-        let und := (ls.filter (fun l => !isDefined s l)).foldl insertSet s.undeclared
-        .ok { deferred with undeclared := und }
-  | .ctx err => .error (mapErr err)
+  match mentioned with
+  | .error e => .error e
+  | .ok ls =>
+    let s : St := { s with undeclared := (ls.filter (fun l => !isDefined s l)).foldl insertSet s.undeclared }
+    let deferred : St := { s with len := s.len + size.getD 2, ready := s.ready ++ [item] }
+    match conc s with
+    | .ok bytes => .ok { s with len := s.len + bytes.length, ready := s.ready ++ [item] }
+    | .tooLarge => if dependsOnLabels s o then .ok deferred else .error .expressionTooLarge
+    | .negative => if dependsOnLabels s o then .ok deferred else .error .expressionNegative
+    | .ctx .divisionByZero => if dependsOnLabels s o then .ok deferred else .error .divisionByZero
+    | .ctx (.unknownLabel _) => .ok deferred
+    | .ctx err => .error (mapErr err)
 
 /-! ### `backpatch_labels` and `emit_bytecode` -/
 
@@ -216,6 +219,53 @@ def finish (s : St) : Except AsmErr (List Nat) :=
     let (ls, ws) := layoutLoop s (32 * n + 2) (List.replicate n 1)
     emit { s.ctx with labels := ls } s.ready ws
 
+/-- `declare_macros`: the macro definitions among the scope's top-level items; a
+name defined twice (instruction and expression macros share one namespace) is an error. -/
+def declareMacros : List RawOp → List (String × MacroDef) → Except AsmErr (List (String × MacroDef))
+  | [], ms => .ok ms
+  | .op (.instrDef n ps body) :: rest, ms =>
+    if ms.any (·.1 == n) then .error (.duplicateMacro n) else declareMacros rest (ms ++ [(n, .instr ps body.toList)])
+  | .op (.exprDef n ps body) :: rest, ms =>
+    if ms.any (·.1 == n) then .error (.duplicateMacro n) else declareMacros rest (ms ++ [(n, .expr ps body)])
+  | _ :: rest, ms => declareMacros rest ms
+
+/-- First pass of `expand_macro`: rename the labels the body defines, drawing one
+random suffix per label. -/
+def renameLocals (rnd : Nat → Nat) (name : String) :
+    List AOp → Nat → List (String × String) → Except AsmErr (List AOp × Nat × List (String × String))
+  | [], k, m => .ok ([], k, m)
+  | .label l :: rest, k, m =>
+    if m.any (·.1 == l) then .error (.duplicateLabel l)
+    else
+      let l' := mangle rnd k name l
+      match renameLocals rnd name rest (k + 1) (m ++ [(l, l')]) with
+      | .error e => .error e
+      | .ok (os, k', m') => .ok (.label l' :: os, k', m')
+  | o :: rest, k, m =>
+    match renameLocals rnd name rest k m with
+    | .error e => .error e
+    | .ok (os, k', m') => .ok (o :: os, k', m')
+
+/-- Second pass: in every expression of the body (operands, arguments of nested
+invocations) rename uses of local labels, then substitute all parameters at once. -/
+def substBody (renames : List (String × String)) (bindings : List (String × Expr)) (body : List AOp) : List AOp :=
+  let fix (e : Expr) : Expr := fillVars bindings (renames.foldl (fun e (o, n) => replaceLabel o n e) e)
+  body.map (fun o => match o with
+    | .op code (some e) => AOp.op code (some (fix e))
+    | .push e => .push (fix e)
+    | .macro n as => .macro n (as.map fix)
+    | o => o)
+
+/-- The body an invocation `%name(args)` stands for: arity check, local labels
+renamed to names unique to this expansion, parameters replaced by the argument
+expressions.  Returns the instantiated body and the new fresh counter. -/
+def instantiate (rnd : Nat → Nat) (name : String) (params : List String) (body : List AOp)
+    (args : List Expr) (fresh : Nat) : Except AsmErr (List AOp × Nat) :=
+  if params.length ≠ args.length then .error (.macroArgumentCount name)
+  else match renameLocals rnd name body fresh [] with
+    | .error e => .error e
+    | .ok (body1, k, renames) => .ok (substBody renames (params.zip args) body1, k)
+
 mutual
 /-- `Assembler::push(rop)` -/
 def push (rnd : Nat → Nat) : Nat → St → RawOp → Except AsmErr St
@@ -231,8 +281,8 @@ def push (rnd : Nat → Nat) : Nat → St → RawOp → Except AsmErr St
     | .op (.instrDef _ _ _) => .ok s
     | .op (.exprDef _ _ _) => .ok s
     | .op (.macro name args) => expandMacro rnd fuel s name args
-    | .op (.op code imm) => pushInstr s (.op code imm) (.op code imm) (some (1 + immLen code)) (concretizeOp s.ctx code imm)
-    | .op (.push e) => pushInstr s (.push e) (.push e) none (concretizePush s.ctx e)
+    | .op (.op code imm) => pushInstr s (.op code imm) (.op code imm) (some (1 + immLen code)) (fun s => concretizeOp s.ctx code imm)
+    | .op (.push e) => pushInstr s (.push e) (.push e) none (fun s => concretizePush s.ctx e)
     | .raw bytes => .ok { s with len := s.len + bytes.length, ready := s.ready ++ [.raw bytes] }
     | .scope ops =>
       match assemble rnd fuel { fresh := s.fresh } ops with
@@ -248,67 +298,42 @@ def expandMacro (rnd : Nat → Nat) : Nat → St → String → List Expr → Ex
       if params.length ≠ args.length then .error (.macroArgumentCount name)
       else if s.depth ≥ maxMacroDepth then .error (.macroRecursionLimit name)
       else
-        let bindings := params.zip args
-        -- first pass: rename locally defined labels
-        let rec rename : List AOp → Nat → List (String × String) → Except AsmErr (List AOp × Nat × List (String × String))
-          | [], k, m => .ok ([], k, m)
-          | .label l :: rest, k, m =>
-            if m.any (·.1 == l) then .error (.duplicateLabel l)
-            else
-              let l' := mangle rnd k name l
-              match rename rest (k + 1) (m ++ [(l, l')]) with
-              | .error e => .error e
-              | .ok (os, k', m') => .ok (.label l' :: os, k', m')
-          | o :: rest, k, m =>
-            match rename rest k m with
-            | .error e => .error e
-            | .ok (os, k', m') => .ok (o :: os, k', m')
-        match rename body s.fresh [] with
+        match instantiate rnd name params body args s.fresh with
         | .error e => .error e
-        | .ok (body1, k, renames) =>
-          -- second pass: rename uses, then substitute all parameters at once
-          let fix (e : Expr) : Expr := fillVars bindings (renames.foldl (fun e (o, n) => replaceLabel o n e) e)
-          let body2 := body1.map (fun o => match o with
-            | .op code (some e) => AOp.op code (some (fix e))
-            | .push e => .push (fix e)
-            | .macro n as => .macro n (as.map fix)
-            | o => o)
-          let rec feed : Nat → St → List AOp → Except AsmErr St
-            | _, s, [] => .ok s
-            | 0, _, _ => .error (.panic "fuel")
-            | f + 1, s, o :: os =>
-              match push rnd fuel s (.op o) with
-              | .error e => .error e
-              | .ok s' => feed f s' os
-          match feed body2.length { s with depth := s.depth + 1, fresh := k } body2 with
+        | .ok (body2, k) =>
+          match feed rnd fuel { s with depth := s.depth + 1, fresh := k } body2 with
           | .error e => .error e
           | .ok s' => .ok { s' with depth := s'.depth - 1 }
     | _ => .error (.undeclaredInstructionMacro name)
+
+/-- feed the instructions of an instantiated body -/
+def feed (rnd : Nat → Nat) : Nat → St → List AOp → Except AsmErr St
+  | 0, _, _ => .error (.panic "fuel")
+  | _ + 1, s, [] => .ok s
+  | fuel + 1, s, o :: os =>
+    match push rnd fuel s (.op o) with
+    | .error e => .error e
+    | .ok s' => feed rnd fuel s' os
 
 /-- `Assembler::assemble(ops)` on a fresh assembler; also returns the fresh-suffix counter. -/
 def assemble (rnd : Nat → Nat) : Nat → St → RawOps → Except AsmErr (List Nat × Nat)
   | 0, _, _ => .error (.panic "fuel")
   | fuel + 1, s0, ops =>
-    -- declare_macros
-    let rec declare : List RawOp → List (String × MacroDef) → Except AsmErr (List (String × MacroDef))
-      | [], ms => .ok ms
-      | .op (.instrDef n ps body) :: rest, ms =>
-        if ms.any (·.1 == n) then .error (.duplicateMacro n) else declare rest (ms ++ [(n, .instr ps body.toList)])
-      | .op (.exprDef n ps body) :: rest, ms =>
-        if ms.any (·.1 == n) then .error (.duplicateMacro n) else declare rest (ms ++ [(n, .expr ps body)])
-      | _ :: rest, ms => declare rest ms
-    match declare ops.toList s0.macros with
+    match declareMacros ops.toList s0.macros with
     | .error e => .error e
     | .ok ms =>
-      let rec feedAll : St → RawOps → Except AsmErr St
-        | s, .nil => .ok s
-        | s, .cons o rest =>
-          match push rnd fuel s o with
-          | .error e => .error e
-          | .ok s' => feedAll s' rest
-      match feedAll { s0 with macros := ms } ops with
+      match feedAll rnd fuel { s0 with macros := ms } ops with
       | .error e => .error e
       | .ok s => (finish s).map (fun bytes => (bytes, s.fresh))
+
+/-- `for op in ops { self.push(op)? }` -/
+def feedAll (rnd : Nat → Nat) : Nat → St → RawOps → Except AsmErr St
+  | 0, _, _ => .error (.panic "fuel")
+  | _ + 1, s, .nil => .ok s
+  | fuel + 1, s, .cons o rest =>
+    match push rnd fuel s o with
+    | .error e => .error e
+    | .ok s' => feedAll rnd fuel s' rest
 end
 
 end Asm
